@@ -24,7 +24,7 @@ WATCHDOG = {"quick": 600, "thorough": 3000}
 WTESTS = {"groups": ['flatten'], "tests": ['tests/decay']}
 REQUIRED = {
     "subdecays>=4": 20, "mult3-of-decaying": 20, "reoccur-two-depths": 20, "mother-last": 20, "stable-nonempty": 20,
-    "stable-as-set": 5, "stable-as-tuple": 5, "visible_bf": 20,
+    "stable-as-set": 5, "stable-as-tuple": 5, "visible_bf": 20, "same-shape-other-branching-fractions": 20,
     "C12.flatten.leaves_and_product": 500, "C12.flatten.original_unchanged": 500,
 }
 EXHAUSTIVE_NOTE = "W-enum is exhaustive over increasing-tree shapes with <= N decaying particles (N=5 quick, 6 thorough), child multiplicities 1..3, all stable subsets"
@@ -96,6 +96,11 @@ def check_case(ctx, case, workload="enum"):
             ctx.hit("visible_bf")
             if not math.isclose(vb, bf, rel_tol=1e-9, abs_tol=1e-290):
                 ctx.violate("visible_bf", f"visible_bf {vb} != product {bf}", wit)
+    if not S and case.get("visible") and not case.get("rescaled"):
+        # the same tree with other branching fractions, in the same interpreter
+        ctx.hit("same-shape-other-branching-fractions")
+        ch2 = {"mother": m, "types": {k: [round(v[0] * 0.5 + 0.01, 6), v[1]] for k, v in types.items()}}
+        check_case(ctx, {**case, "chain": ch2, "rescaled": True}, workload)
     ctx.sample({"chain": case["chain"], "order": case.get("order"), "stable": S, "flattened_fs": dict(leaves), "bf": bf})
 
 
